@@ -65,7 +65,7 @@ func (g *G) boolFrag() string { return g.pick("b0", "b1", "!b0", "!b1", "b0 && b
 func (g *G) staticText() string {
 	base := []string{"hello", "a b", "x <em>y</em> z", "tail", "1 & 2", "it's", "a.b", "50% off", "q?", "(p)", "C#", "no. #", "a ##", "#1 x", "a #b c", "x #y", "1 # 2 ##3"}
 	if g.O.NonASCII {
-		base = append(base, "ünï", "日本", "a😀b")
+		base = append(base, "ünï", "日本", "a😀b", "Ċ č Ġ Ĩ ĩ", "Ģ ģ Ĭ ĺ Ŀ Ľ", "Ż Ž ś ŝ Į ĥ į", "上 不 😊")
 	}
 	if g.O.AdvStatic {
 		base = append(base, `say "hi"`, `back\slash`, "tick`tock", `a\nb`, `\"`, "{x}", "# h", "a#b")
@@ -269,7 +269,14 @@ func (g *G) Block(depth int) []*Node {
 			case 0:
 				out = append(out, &Node{Kind: KScript, Expr: g.pick("fe1(s0)", "fe2(s1)"), Unescaped: true})
 			case 1:
-				out = append(out, &Node{Kind: KElem, Tag: "b", ClassExprs: g.pick2([]string{"s0", "n0"}, []string{"n0", "s1"}, []string{"xs", "n0"}), Inline: &Node{Kind: KText, Parts: []Part{{Static: "bad class arg"}}}})
+				bad := &Node{Kind: KElem, Tag: "b", ClassExprs: g.pick2([]string{"s0", "n0"}, []string{"n0", "s1"}, []string{"xs", "n0"}), Inline: &Node{Kind: KText, Parts: []Part{{Static: "bad class arg"}}}}
+				switch g.R.Intn(4) {
+				case 0:
+					bad.AttrsCmd = "m0, mb" // the failing helper call is followed by another helper call of the same tag, which succeeds
+				case 1:
+					bad.ObjRef = "o0"
+				}
+				out = append(out, bad)
 			case 2:
 				out = append(out, &Node{Kind: KElem, Tag: "i", AttrsCmd: g.pick("s0", "m0, s0", "mb, n0", "n0, m0"), Inline: &Node{Kind: KText, Parts: []Part{{Static: "bad attrs arg"}}}})
 			case 3:
